@@ -385,15 +385,22 @@ def r_unify_table(ck: Checker) -> None:
            "`#const c=5.` (or -c c=5) makes the tuples (L,c) and (L,5) coincide", rule="C02.TABLE.const")
     # two function terms: same name, same arity, and the arguments compared POSITION BY POSITION
     itf = ck.interp(func, Pins.of(vals={f"{lhs}.ast_type": "ASTType.Function", f"{rhs}.ast_type": "ASTType.Function"}))
-    shapes = set()
-    for ret, st in itf.returns:
-        if ret.value is None or isinstance(ret.value, ast.Constant):
-            continue
-        shapes.add(unparse(ret.value))
-    want_f = f"{lhs}.name == {rhs}.name and len({lhs}.arguments) == len({rhs}.arguments) and all(_potentially_unifying(x[0], x[1]) for x in zip({lhs}.arguments, {rhs}.arguments))"
-    want_g = f"{lhs}.name == {rhs}.name and len({lhs}.arguments) == len({rhs}.arguments) and all(_potentially_unifying(a, b) for a, b in zip({lhs}.arguments, {rhs}.arguments))"
-    ok_f = bool(shapes) and all(same(s, want_f) or same(s, want_g) or same(s, want_f.replace("_potentially_unifying(x[0], x[1])", "_potentially_unifying(*x)")) for s in shapes)
-    ck.add("(Function, Function): equal name and arity and pairwise unifying arguments, position by position", ok_f, func, func.node, f"answers `{sorted(short(s, 150) for s in shapes)}`",
+    # (the normal form writes `return A and all(f(x) for x in xs)` as `if not A: return False` + the search loop)
+    zl = [lp_ for lp_ in find_nodes(func.node, lambda q: isinstance(q, ast.For)) if same(unparse(lp_.iter), f"zip({lhs}.arguments, {rhs}.arguments)") and itf.reachable(lp_)]  # type: ignore[attr-defined]
+    shapes = {unparse(lp_.iter) for lp_ in zl}  # type: ignore[attr-defined]
+    ok_f = len(zl) == 1
+    if ok_f:
+        tgt_ = zl[0].target  # type: ignore[attr-defined]
+        pair = f"{unparse(tgt_)}[0], {unparse(tgt_)}[1]" if isinstance(tgt_, ast.Name) else ", ".join(unparse(e) for e in tgt_.elts)
+        inner_f = [r for r in returns_of(func) if enclosing_loop(func, r) is zl[0] and itf.reachable(r)]
+        ok_f = bool(inner_f) and all(is_const(r.value, False) and (itf.holds(r, f"not _potentially_unifying({pair})") or (isinstance(tgt_, ast.Name) and itf.holds(r, f"not _potentially_unifying(*{tgt_.id})"))) for r in inner_f)
+        # before the loop: name and arity
+        ok_f = ok_f and itf.holds(zl[0], f"{lhs}.name == {rhs}.name") and itf.holds(zl[0], f"len({lhs}.arguments) == len({rhs}.arguments)")
+        from .util import block_of
+        blk_ = block_of(func, zl[0]) or []
+        nxt_ = [s_ for k_, s_ in enumerate(blk_) if k_ > 0 and blk_[k_ - 1] is zl[0]]
+        ok_f = ok_f and bool(nxt_) and isinstance(nxt_[0], ast.Return) and is_const(nxt_[0].value, True)
+    ck.add("(Function, Function): equal name and arity and pairwise unifying arguments, position by position", ok_f, func, func.node, f"loop over `{sorted(shapes)}` with 'cannot unify' exactly when a pair cannot, name and arity tested before: {ok_f}",
            "comparing every argument of one term with every argument of the other (a product instead of a zip) calls `cost(soft,1)` and `cost(soft,N)` different although N may be 1: two objective tuples that can coincide are treated as distinct and counted twice")
     seq = ck.func("utils.ast:potentially_unifying_sequence")
     its = ck.interp(seq)
